@@ -6,5 +6,5 @@ init_worker = _search.init_worker
 run_case = _search.run_case
 
 
-def main(run):
-    return _search.main_for("C05", run, "Oracle for C05: see DESIGN.md section 4.", require=("design", "ValueError"))
+def main(run, only=None):
+    return _search.main_for("C05", run, "Oracle for C05: see DESIGN.md section 4.", require=("design", "ValueError") if not only else (), only=only)
